@@ -10,9 +10,15 @@ package compose
 
 import (
 	"github.com/cloudwego/eino/internal"
+	"github.com/cloudwego/eino/schema"
 )
 
 // VerifConcatItems exposes internal.ConcatItems (the caller ensures len(items) > 1).
 func VerifConcatItems[T any](items []T) (T, error) {
 	return internal.ConcatItems(items)
+}
+
+// VerifConcatStreamReader exposes concatStreamReader.
+func VerifConcatStreamReader[T any](sr *schema.StreamReader[T]) (T, error) {
+	return concatStreamReader(sr)
 }
